@@ -11,7 +11,7 @@ VARIABLES tl, tBad, tCnt
 H(s)  == HexToInt(s)
 HB(s) == HexToBytes(s)
 
-Classes == {"suite_ro", "suite_nu", "dst_1", "dst_254", "dst_255", "dst_256", "dst_257", "dst_long", "dst_wide", "dst_empty", "msg_empty", "msg_long",
+Classes == {"suite_ro", "suite_nu", "dst_1", "dst_254", "dst_255", "dst_256", "dst_257", "dst_long", "dst_wide", "u_short", "dst_empty", "msg_empty", "msg_long",
             "uni_len_32", "uni_len_48", "uni_len_64", "uni_len_other", "uni_ge_p", "uni_panic", "u_zero", "u_one", "u_pm1", "u_exceptional",
             "gx1_square", "gx1_nonsquare", "u_odd", "u_even", "y_flipped", "xmd_ok", "xmd_err", "xmd_len_edge", "xmd_ell_max", "xmd_vector",
             "iso_ok", "iso_exceptional", "swu_ok", "suite_vector", "result_identity", "pure"}
@@ -41,7 +41,11 @@ Verdict(ev) ==
             (IF ev.suite = "RO" THEN {"suite_ro"} ELSE {"suite_nu"}) \cup DstClasses(dst) \cup {"pure"}
             \cup (IF Len(msg) = 0 THEN {"msg_empty"} ELSE {}) \cup (IF Len(msg) > 128 THEN {"msg_long"} ELSE {})
             \cup (IF Has(ev, "vector") /\ ev.vector THEN {"suite_vector"} ELSE {})
-            \cup (IF want[1] = "ok" /\ IsInf(want[2]) THEN {"result_identity"} ELSE {}) >>
+            \cup (IF want[1] = "ok" /\ IsInf(want[2]) THEN {"result_identity"} ELSE {})
+            \cup (IF Has(ev, "steer") /\ want[1] = "ok"                                \* a field element with a zero leading byte (a 31-byte integer)
+                     /\ LET ub == ExpandMessageXmd(msg, dst, IF ev.suite = "RO" THEN 96 ELSE 48) IN
+                        \E i \in 0..(IF ev.suite = "RO" THEN 1 ELSE 0) : FieldElem(ub[2], i) \prec Pow2(8 * W - 8)
+                  THEN {"u_short"} ELSE {}) >>
     [] ev.ev = "h2c.Uniform" ->
          LET src == HB(ev["in"])  n == Len(src) IN
          IF n < 32 \/ n > 64 THEN << ev.panic, {"uni_panic"} >>
